@@ -674,6 +674,19 @@ Definition rhythm_wait (fuel : nat) (w : world) (bell row place : nat) (uc st : 
       end
   end.
 
+(* Bot.tick(), second half: everything after `wait_for_bell_time` returns.  [bell] and [uc] are the
+   locals sampled before the wait; everything else is read from the state as it is NOW. *)
+Definition tick_end (w : world) (bell : nat) (uc : bool) : hres :=
+  let w := if uc then w
+           else let st' := stroke_of_row (b_row_number (w_bot w)) in
+                match tw_get_stroke (w_tower w) bell with
+                | Some s => if Bool.eqb s st' then emit_bell w bell s else w
+                | None => w
+                end in
+  let w := if b_place (w_bot w) =? 0 then make_calls w (b_calls (w_bot w)) else w in
+  let w := upd_bot w (fun b => b <| b_place := S (b_place b) |>) in
+  if N_of w <=? b_place (w_bot w) then start_next_row w false else hok w.
+
 (* Bot.tick() *)
 Definition tick (fuel : nat) (w : world) : hres :=
   let b := w_bot w in
@@ -685,16 +698,7 @@ Definition tick (fuel : nat) (w : world) : hres :=
       let st := stroke_of_row rn in
       let w := log w (RWaitFor (w_now w) bell rn (b_place b) uc st) in
       let w := rhythm_wait fuel w bell rn (b_place b) uc st in
-      (* everything below reads the state as it is AFTER the wait *)
-      let w := if uc then w
-               else let st' := stroke_of_row (b_row_number (w_bot w)) in
-                    match tw_get_stroke (w_tower w) bell with
-                    | Some s => if Bool.eqb s st' then emit_bell w bell s else w
-                    | None => w
-                    end in
-      let w := if b_place (w_bot w) =? 0 then make_calls w (b_calls (w_bot w)) else w in
-      let w := upd_bot w (fun b => b <| b_place := S (b_place b) |>) in
-      if N_of w <=? b_place (w_bot w) then start_next_row w false else hok w
+      tick_end w bell uc
   end.
 
 (* ------------------------------------------------------------------ main loop *)
